@@ -840,6 +840,42 @@ fn stale_ids(which: u64, ctx: &mut Ctx) {
 			}
 		}
 		8 => {
+			// a sound that can never resume (it waits for a time of a clock that no longer exists) finishes: it is unloaded, its
+			// slot is free again, and a persisting track that only waited for it goes away too
+			for persisting_host in [false, true] {
+				let mut m = rig::manager(sr, 4, rig::caps(2), MainTrackBuilder::new().sound_capacity(1));
+				let mut host = if persisting_host { Some(m.add_sub_track(TrackBuilder::new().persist_until_sounds_finish(true).sound_capacity(1)).unwrap()) } else { None };
+				let mut clock = m.add_clock(ClockSpeed::TicksPerSecond(1.0)).unwrap();
+				clock.start();
+				let data = dc_loop();
+				let mut h = match host.as_mut() {
+					Some(t) => t.play(data).unwrap(),
+					None => m.play(data).unwrap(),
+				};
+				cb(&mut m, &mut buf, ctx, "resume on a removed clock");
+				h.pause(Tween { duration: Duration::ZERO, ..Default::default() });
+				h.resume_at(StartTime::ClockTime(ClockTime { clock: clock.id(), ticks: 1000, fraction: 0.0 }), Tween::default());
+				cb(&mut m, &mut buf, ctx, "resume on a removed clock");
+				drop(clock);
+				let had_host = host.is_some();
+				drop(host.take());
+				for _ in 0..4 {
+					cb(&mut m, &mut buf, ctx, "resume on a removed clock");
+				}
+				let what = format!("sound on {}: pause(instant); resume_at(tick 1000 of a clock); clock handle dropped{}; 4 callbacks", if had_host { "a persist_until_sounds_finish(true) track" } else { "the main track" }, if had_host { " and the track's handle too" } else { "" });
+				if h.state() != PlaybackState::Stopped {
+					ctx.fail("a sound waiting to resume on a removed clock does not finish (it can never resume) :: resume on a removed clock", format!("{}: state {:?}", what, h.state()));
+				}
+				let n = if had_host { m.num_sub_tracks() } else { m.main_track().num_sounds() };
+				if n != 0 {
+					ctx.fail("a sound waiting to resume on a removed clock is never unloaded (its slot / its persisting track leaks) :: resume on a removed clock", format!("{}: {} still counted", what, n));
+				}
+				if !had_host && m.play(dc_loop()).is_err() {
+					ctx.fail("the slot of a sound that could never resume is not free again :: resume on a removed clock", what.clone());
+				}
+				ctx.transitions += 6;
+				ctx.nontrivial(hash64(&("resume on removed clock", persisting_host)));
+			}
 			// a track whose handle is dropped while something keeps it alive, and whose playback state changes AFTER the drop
 			// (a pause fade that ends later, a pause / resume issued just before the drop): it is still removed once nothing
 			// keeps it alive
